@@ -143,6 +143,11 @@ var envTemplates = []string{
 	// two expansion temporaries of ONE macro call are two different symbols, whatever the other evaluations do
 	"(do (defmacro %Pt (fn [a b] (let [x (gensym) y (gensym)] `(let [~x ~a ~y ~b] [~x ~y (= (quote ~x) (quote ~y))])))) (def %Pr (fn [n acc] (if (< n 1) acc (%Pr (- n 1) (%Pt 2 1))))) (%Pr 60 nil))",
 	"(do (def %Ps (fn [n] (if (< n 1) true (and (let [f (future (str (gensym))) g (future (str (gensym)))] (not (= (deref f) (deref g)))) (%Ps (- n 1)))))) (%Ps 25))",
+	// closures and futures that ESCAPE from a catch handler / from a macro function keep the frame that binds the catch
+	// variable / the macro's parameters for as long as they live
+	"(do (def %Pj (fn [v] (try (throw [v (quote %Pj)]) (catch err (fn [] err))))) (let [cs (map %Pj [1 2 3 4 5 6 7 8])] (%T (map (fn [c] (c)) cs))) (map (fn [c] (c)) (map %Pj [9 10])))",
+	"(do (def %Ph (fn [n acc] (if (< n 1) acc (%Ph (- n 1) (conj acc (try (throw (quote %Ph)) (catch err (future-call (fn [] (str err n)))))))))) (map deref (%Ph 10 [])))",
+	"(do (defmacro %Pb (fn [x] (let [g (fn [] x)] (list g)))) (def %Po (fn [n acc] (if (< n 1) acc (%Po (- n 1) (+ acc (%Pb 3)))))) (%Po 40 0))",
 	// errors caught while other evaluations run
 	"(do (def %Pq (fn [n acc] (if (< n 1) acc (%Pq (- n 1) (try (throw (+ acc 1)) (catch e e)))))) (%T (%Pq 30 0)))",
 }
